@@ -1824,10 +1824,10 @@ def rule_R38(text, applied):
     cnt = 0
     while True:
         m_text = mask(text)
-        m = re.search(r"([\w\.]+?)\s*\.\s*iter\(\)\s*\.\s*copied\(\)\s*\.\s*filter\s*\(\s*\|\s*(\w+)\s*\|\s*", m_text)
+        m = re.search(r"((?:\w+\s*\.\s*)*\w+)\s*\.\s*iter\(\)\s*\.\s*copied\(\)\s*\.\s*filter\s*\(\s*\|\s*(&?)\s*(\w+)\s*\|\s*", m_text)
         if not m:
             break
-        x, c = "".join(m.group(1).split()), m.group(2)
+        x, byval, c = "".join(m.group(1).split()), m.group(2) == "&", m.group(3)
         op = m_text.index("(", m_text.index("filter", m.end(1)))
         cp = match_close(m_text, op)
         pred = text[m.end():cp].strip().rstrip(",").strip()
@@ -1838,8 +1838,10 @@ def rule_R38(text, applied):
             raise ExtractError("R38: filter(..) is not followed by collect() (outside the subset)")
         end = cp + 1 + cm.end()
         n = cnt
-        code = (f"{{ let mut fo{n}_ = Vec::new(); let mut fi{n}_: usize = 0; while fi{n}_ < {x}.len() {{ let {c} = &{x}[fi{n}_]; fi{n}_ += 1; "
-                f"if {' '.join(pred.split())} {{ fo{n}_.push(*{c}); }} }} fo{n}_ }}")
+        # `|c|` binds a reference to the (copied) item, `|&c|` the item itself
+        bind, val = (f"let {c} = {x}[fi{n}_];", c) if byval else (f"let {c} = &{x}[fi{n}_];", "*" + c)
+        code = (f"{{ let mut fo{n}_ = Vec::new(); let mut fi{n}_: usize = 0; while fi{n}_ < {x}.len() {{ {bind} fi{n}_ += 1; "
+                f"if {' '.join(pred.split())} {{ fo{n}_.push({val}); }} }} fo{n}_ }}")
         text = text[:m.start()] + _keep_newlines(text[m.start():end], code) + text[end:]
         cnt += 1
     if cnt:
@@ -2082,6 +2084,75 @@ def rule_R8find(text, applied):
     return text
 
 
+def rule_R41(text, applied):
+    """`X.sort_by_key(|&V| KEY);` on a slice of Copy elements with a u32 key -> the keys are computed by an index loop, then
+    the trusted stand-in for std's STABLE sort orders X by them:
+      { let mut sk_ = Vec::new(); let mut si_: usize = 0; while si_ < X.len() { let V = X[si_]; si_ += 1; sk_.push(KEY); }
+        vsort_by_keys(X, &sk_); }
+    (slice::sort_by_key: "This sort is stable"; the key function is pure here, so evaluating it once per element -- rather than
+    once per comparison -- yields the same order; a panic inside KEY is covered for every element, although std does not call
+    KEY at all for slices shorter than two.)"""
+    cnt = 0
+    while True:
+        m_text = mask(text)
+        m = re.search(r"((?:\w+\s*\.\s*)*\w+)\s*\.\s*sort_by_key\(\s*\|\s*&\s*(\w+)\s*\|", m_text)
+        if not m:
+            break
+        op = m_text.index("(", m_text.index("sort_by_key", m.start(1) + len(m.group(1))))
+        cp = match_close(m_text, op)
+        key = " ".join(text[m.end():cp].split())
+        x, v = "".join(m.group(1).split()), m.group(2)
+        code = (f"{{ let mut sk_ = Vec::new(); let mut si_: usize = 0; while si_ < {x}.len() {{ let {v} = {x}[si_]; si_ += 1; sk_.push({key}); }} "
+                f"vsort_by_keys({x}, &sk_); }}")
+        text = text[:m.start()] + _keep_newlines(text[m.start():cp + 1], code) + text[cp + 1:]
+        cnt += 1
+    if cnt:
+        applied.append(f"R41x{cnt}")
+    return text
+
+
+def rule_R42(text, applied, arg=None):
+    """`CHAIN.FIELD.clone()` -> `HELPER(&CHAIN.FIELD)` for a field whose type has a derived Clone (arg `FIELD=HELPER`; the helper
+    is the unit's stand-in/verified copy for that type: an equal value).  CHAIN is the maximal postfix chain in front of the
+    field (identifiers, field accesses, calls with balanced parentheses)."""
+    field, helper = arg.split("=")
+    cnt = 0
+    while True:
+        m_text = mask(text)
+        m = re.search(r"\.\s*" + re.escape(field) + r"\s*\.\s*clone\(\)", m_text)
+        if not m:
+            break
+        k = m.start()
+        # walk back over the postfix chain
+        while k > 0:
+            j = k - 1
+            while j >= 0 and m_text[j] in " \t\n":
+                j -= 1
+            if j >= 0 and m_text[j] == ")":
+                j = match_open_idx(m_text, j)
+                k = j
+                continue
+            if j >= 0 and (m_text[j].isalnum() or m_text[j] == "_"):
+                while j >= 0 and (m_text[j].isalnum() or m_text[j] == "_"):
+                    j -= 1
+                k = j + 1
+                jj = j
+                while jj >= 0 and m_text[jj] in " \t\n":
+                    jj -= 1
+                if jj >= 0 and m_text[jj] == ".":
+                    k = jj
+                    continue
+                break
+            break
+        chain = " ".join(text[k:m.start()].split())
+        new = f"{helper}(&{chain}.{field})"
+        text = text[:k] + _keep_newlines(text[k:m.end()], new) + text[m.end():]
+        cnt += 1
+    if cnt:
+        applied.append(f"R42({field})x{cnt}")
+    return text
+
+
 def rule_R20(text, applied):
     """visitor call -> index loop: `RECV.visit_literals(A, B, |x| { BODY });` becomes
     `{ let lits_ = vclause_literals(&RECV, A, B); let mut li_: usize = 0; while li_ < lits_.len() { let x = lits_[li_];
@@ -2214,7 +2285,7 @@ RULES = {
     "R20": rule_R20, "R21": rule_R21, "R7stackrev": rule_R7stackrev, "R7pairs": rule_R7pairs, "R7indexmap": rule_R7indexmap, "R12frozen": rule_R12frozen, "R40": rule_R40, "R39": rule_R39, "R7intoenum": rule_R7intoenum, "substws": rule_substws, "R38": rule_R38, "R9enc": rule_R9enc, "R37": rule_R37, "R36": rule_R36, "R35": rule_R35, "R16oiw": rule_R16oiw, "R9blockon": rule_R9blockon, "R34": rule_R34, "R31": rule_R31, "R30": rule_R30, "R26it": rule_R26it, "R29": rule_R29, "R7own": rule_R7own, "R28": rule_R28, "R27": rule_R27, "R8all": rule_R8all, "R16od": rule_R16od, "R10site": rule_R10site,
     "R1": rule_R1, "R2": rule_R2, "R2ref": rule_R2ref, "R3": rule_R3, "R4": rule_R4, "R5": rule_R5,
     "R8max": rule_R8max, "R8cmpmax": rule_R8cmpmax, "R8resize_none": rule_R8resize_none, "R9": rule_R9, "R8position": rule_R8position, "R8rotate": rule_R8rotate, "R12refcell": rule_R12refcell,
-    "R8slice": rule_R8slice, "R7iter": rule_R7iter, "R8bitget": rule_R8bitget, "R8intonext": rule_R8intonext, "R8find": rule_R8find, "R8rposition": rule_R8rposition, "R8contains": rule_R8contains, "R12cell": rule_R12cell, "R8resize_veccap": rule_R8resize_veccap, "R8collectid": rule_R8collectid, "R8index": rule_R8index, "subst": rule_subst,
+    "R8slice": rule_R8slice, "R7iter": rule_R7iter, "R8bitget": rule_R8bitget, "R8intonext": rule_R8intonext, "R8find": rule_R8find, "R41": rule_R41, "R42": rule_R42, "R8rposition": rule_R8rposition, "R8contains": rule_R8contains, "R12cell": rule_R12cell, "R8resize_veccap": rule_R8resize_veccap, "R8collectid": rule_R8collectid, "R8index": rule_R8index, "subst": rule_subst,
     "R7ref": rule_R7ref, "R6": rule_R6, "R16": rule_R16, "R14q": rule_R14q, "R7stack": rule_R7stack, "R18": rule_R18, "R8frozenindex": rule_R8frozenindex, "R7range": rule_R7range, "R14err": rule_R14err, "R7array": rule_R7array, "R17": rule_R17,
     "R13": rule_R13, "R14": rule_R14, "R2set": rule_R2set, "R8first": rule_R8first, "R7": rule_R7, "R10": rule_R10, "R11": rule_R11,
 }
